@@ -294,6 +294,30 @@ void partitionCase(size_t idx) {
 	if (loadNif(re, saveNif(cp, false)) != 0 || re.GetShapes().size() != 1) { R_viol("partition-labels", "reload/load", what + ": does not reload"); return; }
 	// empty partitions may be dropped by nobody: they are written and read back
 	if (!verify(re, re.GetShapes()[0], "after-reload")) return;
+	// deleting a partition while the per-triangle labels are cached (the Get above filled the cache): the labels follow the renumbering,
+	// triangles of the deleted partition become unassigned
+	if (!withUnassigned) {
+		NiVector<BSDismemberSkinInstance::PartitionInfo> i0, i1;
+		std::vector<int> t0, t1;
+		if (nif.GetShapePartitions(s, i0, t0) && i0.size() >= 2) {
+			uint32_t d = rng.below(i0.size() - 1);   // never the last one: later partitions have to move down
+			std::vector<uint32_t> del{d};
+			R_phase("DeletePartitions");
+			nif.DeletePartitions(s, del);
+			R_eval();
+			if (!nif.GetShapePartitions(s, i1, t1) || t1.size() != t0.size()) { R_viol("partition-labels", "after-delete-partition/label-count", what + fmt(": %zu labels before, %zu after DeletePartitions", t0.size(), t1.size())); return; }
+			if (i1.size() + 1 != i0.size()) { R_viol("partition-labels", "after-delete-partition/partition-count", what + fmt(": %u partitions before, %u after deleting one", i0.size(), i1.size())); return; }
+			for (size_t i = 0; i < t0.size(); i++) {
+				int want = t0[i] < 0 ? -1 : (uint32_t)t0[i] == d ? -1 : t0[i] - ((uint32_t)t0[i] > d ? 1 : 0);
+				if (t1[i] != want && !(want == -1 && t1[i] >= 0 && t1[i] < (int)i1.size())) {   // unassigned triangles may be put somewhere, never past the end
+					R_viol("partition-labels", "after-delete-partition/label-not-renumbered", what + fmt(": partition %u of %u deleted; triangle %zu had label %d, now %d, expected %d", d, i0.size(), i, t0[i], t1[i], want));
+					return;
+				}
+				if (t1[i] >= (int)i1.size()) { R_viol("partition-labels", "after-delete-partition/label-out-of-range", what + fmt(": triangle %zu carries label %d but only %u partitions are left", i, t1[i], i1.size())); return; }
+			}
+			R_stat("partition_deletions_with_cached_labels");
+		}
+	}
 	R_cover(what);
 }
 
